@@ -22,10 +22,11 @@ CLAIMED = {
     'C19': ('model_checking', '§6 C19', 'Executor Rc/Arc count model with drop events on all four flavours: for every graph of the bound, optional container membership, optional kept search result (path, node, cycle, node vector, edge vector) and a family of drop orders, the release counter of every node value is compared after every drop with the set of handles still held: never released while held (directly, through the container or through a kept result), kept results stay usable, and released exactly once when the last handle is gone (cycles and self-loops included). Native replays observe releases through a drop-counting payload.'),
     'C16': ('model_checking', '§6 C16', 'Engine C: struct definitions and unsafe impl headers of Node, WeakNode, Adjacent, Edge, Graph, Path are parsed from the current source; Send(T) / Sync(T) are encoded as Boolean functions of the six leaf facts {K,N,E} x {Send,Sync} under std auto-trait axioms with coinduction (post-fixpoint existence); z3 decides each obligation (sync types: trait only if all six and trait if all six; plain types: never) over all 64 assignments at once - a complete decision of the encoded rules. A probe crate compiled against /repo reports rustc\'s actual verdict for every type x assignment (768 rows); any disagreement with the encoder makes the run inconclusive, every counterexample must be confirmed by it.'),
     'C14': ('model_checking', '§6 C14', 'A generated probe crate holds one function per (macro in digraph!/sync_digraph!/ungraph!/sync_ungraph!, each of the 4 signature forms, row/edge-list shape) whose macro arguments are opaque sym_key(i) / sym_val(j) calls; the MIR of the expansions is dumped from rustc and executed with gdsl\'s MIR, so all keys and values are symbolic: row keys assumed distinct, edge targets unconstrained (forward references, self-loops, repeated edges and unlisted keys are chosen by the solver). Oracle: listed nodes with listed values, listed edges in listed order (directed: exact out-lists; undirected: incident multiset and own-row order); otherwise a panic whose rendered message contains an unlisted key. *_node!/*_connect! helpers and the empty invocation have their own probes. Random concrete invocations are compiled and run natively on every run (translator validation) and for every counterexample.'),
+    'C17': ('model_checking', '§6 C17', 'Executor in thread mode on sync_digraph and sync_ungraph: one script of calls per thread (connect, try_connect, disconnect, isolate, degree queries, bfs) over every initial graph of the bound; a context switch is a free choice immediately before every RwLock::read / RwLock::write (the only shared accesses), explored exhaustively up to 2 preemptions per schedule under a writer-preferring RwLock model with poisoning. Assertions at every terminal state: no deadlock, no panic / poisoned lock, C01/C02 invariants at quiescence, and final graph plus the mutating calls\' return values equal those of some sequential order of the calls (computed with the same executor, equality by z3). Counterexample schedules are forced on the native build through the --cfg gdsl_verif lock-point hook (fallback: free-running repetition under a watchdog). The non-atomic two-step mutations of the current tree are reported as KNOWN-FINDINGs keyed by role.'),
 }
 NOTE = 'Trusted base: engine A std models (validated differentially against the native build on every run), rustc MIR dump = compiled code, z3. Bounds in evidence.coverage.bounds.'
 TECH = 'bounded symbolic execution of rustc MIR (own executor) + z3; native replay of counterexamples'
-TECHS = {'C16': 'SAT/SMT (z3) decision of a Boolean auto-trait encoding extracted from the source; rustc probe crate confirms'}
+TECHS = {'C17': 'bounded symbolic execution of rustc MIR with threads: schedule = free choice before every lock acquisition (<=2 preemptions) + z3; native replay with forced schedule through the lock-point hook', 'C16': 'SAT/SMT (z3) decision of a Boolean auto-trait encoding extracted from the source; rustc probe crate confirms'}
 ALL = ['C01', 'C02', 'C03', 'C20', 'C04', 'C05', 'C06', 'C07', 'C08', 'C09', 'C10', 'C11', 'C15', 'C16', 'C17', 'C12', 'C13', 'C14', 'C18', 'C19']
 
 m = {
@@ -35,7 +36,7 @@ m = {
         'guard': '--cfg gdsl_verif',
         'enable': 'RUSTFLAGS="--cfg gdsl_verif" (passed by symex/build.py when a check needs the lock-point hook)',
         'baseline_off_cmd': 'cd /repo && cargo test --workspace --no-fail-fast --offline',
-        'source_commits': [],
+        'source_commits': ['f46c272'],
         'add_only': True,
     },
     'engines': [
